@@ -14,21 +14,24 @@ MIX = ("Mixed (level 'other'): the deductive obligations listed in evidence (cov
        "the remaining clauses of the statement are run-time contract monitors over bounded-exhaustive universes, reported under coverage.bounded and labelled bounded. ")
 CHECKS = {
     # id: (category, text, note, technique, design_ref)
-    "C01": ("other", MIX + "SAFE (no exception at any indexing/int/chr/assert site) and DEC (termination) obligations for the StateBlock helpers and the seven leaf block rules under WF; "
-            "no-exception/no-hang monitor over the wrapped line universe x 9-12 configurations.", TB, DED + "; bounded no-exception monitor", "4 C01"),
-    "C02": ("other", MIX + "Balanced/levelled/flagged token postconditions of the seven leaf block rules (push inlined) discharged; full stream contract monitored on parse/parseInline.", TB, DED + "; bounded stream monitor", "4 C02"),
-    "C03": ("other", MIX + "map == [startLine, line'], non-empty, non-blank start/end postconditions of the leaf rules and skipEmptyLines discharged; whole map contract monitored on parse output.", TB, DED + "; bounded map monitor", "4 C03"),
-    "C04": ("other", MIX + "html_block succeeds only under a truthy options.html (POST); output language monitor (Safe, nested) over line and inline universes with html off.", TB, DED + "; bounded output-language monitor", "4 C04"),
+    "C01": ("other", MIX + "SAFE (no exception at any indexing/int/chr/assert site) and DEC (termination) obligations under the line-table invariant WF for StateBlock.__init__, getLines and the scanning helpers, the seven leaf block rules, "
+            "blockquote, list_block and its marker scanners, ParserBlock.tokenize, ParserInline.tokenize/skipToken, escape, newline, backtick, scanDelims, the emphasis/strikethrough tokenizers, processDelimiters "
+            "(incl. no negative index), both _postProcess rules, fragments_join, parseLinkTitle, text_join; no-exception/no-hang monitor over the wrapped line universe x 9-12 configurations and run-time evaluation of the contracts' preconditions at every real call.", TB, DED + "; bounded no-exception monitor", "4 C01"),
+    "C02": ("other", MIX + "Balanced/levelled/flagged token postconditions of the seven leaf block rules, blockquote and list_block (push inlined) discharged; the delimiter pipeline is verified function by function: tokenizers establish the delimiter-list invariant, "
+            "processDelimiters yields forward-pointing, same-marker, injective, never-crossing pairs, emphasis/strikethrough _postProcess retag exactly matched pairs consistently and never move structure, fragments_join makes every level the depth and merges adjacent text, "
+            "text_join removes every text_special at any image depth; full stream contract monitored on parse/parseInline.", TB, DED + "; bounded stream monitor", "4 C02"),
+    "C03": ("other", MIX + "map == [startLine, line'], non-empty, non-blank start/end postconditions of the leaf rules, blockquote and list_block (progress within lineMax, end-line patches in range) and skipEmptyLines discharged; whole map contract monitored on parse output.", TB, DED + "; bounded map monitor", "4 C03"),
+    "C04": ("other", MIX + "html_block succeeds only under a truthy options.html (POST); LANG obligations for escapeHtml and the renderer functions; strikethrough._postProcess never moves or alters a structural token present at entry (keeps </s> inside its element); output language monitor (Safe, nested) over line, inline and delimiter universes with html off.", TB, DED + "; bounded output-language monitor", "4 C04"),
     "C06": ("other", MIX + "The quote-form mechanism is proved: rules_block.blockquote verified on all paths (212 obligations): per quoted line the tables move past the marker and its optional blank with the physical-column "
             "invariant re-established, the nested block loop runs on well-formed tables with blkIndent 0, the open token's map is [startLine, line'], and all tables and context fields are restored. The law itself "
-            "(a relation between two runs of the whole parser) is monitored in quote and list form, nested to depth 3.", TB + " list_block's mechanism is covered by the bounded law only.", DED + "; bounded relational monitor (quote and list form)", "4 C06"),
+            "(a relation between two runs of the whole parser) is monitored in quote and list form, nested to depth 3.", TB + " list_block's restore/progress contract is proved as well; the law for lists is monitored.", DED + "; bounded relational monitor (quote and list form)", "4 C06"),
     "C07": ("other", MIX + "Leaf rules: failing/silent calls change nothing, successful calls restore level and parentType (POSTs discharged); the concatenation law monitored over closed-A x non-indented-B pairs.", TB, DED + "; bounded relational monitor", "4 C07"),
     "C08": ("other", MIX + "markup == scanned marker run with its count, info == src slice, content == getLines of exactly the token's lines (hr, heading, lheading, fence, code, html_block) discharged for all inputs; "
-            "getLines/list markup/code span monitored.", TB + " getLines itself is under an assumed contract.", DED + "; bounded content monitor", "4 C08"),
+            "getLines stores, per line, the source text from inside the line's indentation to its end preceded only by the <= 3 blanks of a partially consumed tab (GUARDs); list info/markup come from the item's own line; the code span rule is verified against the exact content spec of the statement; whole-content and code-span oracles monitored.", TB + " ''.join and one-character str methods are trusted models.", DED + "; bounded content monitor", "4 C08"),
     "C11": ("proof", "Every Ruler mutator is proved to invalidate the compiled cache on every exit (normal and KeyError) and to have exactly the "
             "documented set semantics (quantified postconditions over the rule records); first-match lookup proved. By induction over histories RI holds after any sequence of calls.",
-            TB + " getRules/__compile__ (cache == Filter(rules, chain)) are checked by the bounded history monitor (all sequences <= 3/4 over 47 ops), reported under coverage.bounded.",
-            DED + "; bounded operation-sequence monitor as stand-in for __compile__", "3.1, 4 C11"),
+            TB + " getRules/__compile__ are proved too (cache == Filter(rules, chain), Seq-valued spec function); the bounded history monitor (all sequences <= 3/4 over 47 ops) covers the comprehension-built getters, reported under coverage.bounded.",
+            DED + "; bounded operation-sequence monitor", "3.1, 4 C11"),
     "C12": ("proof", "Frame obligations (region typing) for every heap write site of every function in the package: parse-path functions write only per-call objects and the caller's env; the single instance write is "
             "Ruler.__cache__; nothing writes module state; no global/setattr/mutable default/mutable class attribute. Hence results are a function of (configuration, src, env).",
             TB + " The region table of vf/frame.py is trusted; dependencies assumed stateless. A random API-history monitor is the bounded stand-in for the composition step.",
